@@ -2,6 +2,7 @@ import HL.Lemmas.FormatGCore
 import HL.Lemmas.ParseGCoreL
 import HL.Props.C03Faithful
 import HL.Spec.EraseRanges
+import HL.Lemmas.MeaningGCore
 /-!
   C04 "formatting never changes what the journal says" and C05 "formatting is idempotent,
   aligned" — the composed statements from TEXT to TEXT for the core grammar `GCore`
@@ -20,6 +21,7 @@ import HL.Spec.EraseRanges
     * `C04_preserved_core`    the formatted text parses without error to the tree of the original
                               text up to positions (`Erase.journal`: same transactions, dates,
                               descriptions, accounts, quantities digit for digit, commodities);
+    * `C04_other_lines_core`  line by line the two texts are equal except for the posting lines;
     * `C05_idempotent_core`   formatting the formatted text again (with the tree of ITS parse)
                               changes nothing;
     * `C05_aligned_core`      with alignment on, every amount of the formatted text starts at the
@@ -218,6 +220,16 @@ theorem C04_preserved_core (o : Options) (j : GCore.Journal) (h : GCore.WF j = t
   · show (HL.Pipeline.parseText Classes.go (printL (canonLayout o j) j)).2 = []
     rw [h1]
 
+/-- … and in the terms of the C04 oracle (`HL.Meaning.journalEqv`, the comparison applied to the
+    trees the real parser returns before and after formatting; `errsEqv` on the error lists). -/
+theorem C04_meaning_core (o : Options) (j : GCore.Journal) (h : GCore.WF j = true) :
+    Meaning.journalEqv (HL.Pipeline.parseText Classes.go (GCore.print j)).1
+      (HL.Pipeline.parseText Classes.go (GCore.canon o j)).1 = true ∧
+    Meaning.errsEqv (HL.Pipeline.parseText Classes.go (GCore.print j)).2
+      (HL.Pipeline.parseText Classes.go (GCore.canon o j)).2 = true := by
+  rw [(C04_preserved_core o j h).1, HL.Props.C03.C03_faithful_core j h, ← expectedL_std]
+  exact ⟨journalEqv_expectedL _ _ j, rfl⟩
+
 /-- C04 end to end: what `formatRun` returns for the text of a core journal says what the
     original text said. -/
 theorem C04_formatRun_preserved_core (o : Options) (j : GCore.Journal) (h : GCore.WF j = true)
@@ -227,6 +239,19 @@ theorem C04_formatRun_preserved_core (o : Options) (j : GCore.Journal) (h : GCor
       Erase.journal (HL.Pipeline.parseText Classes.go d').1 =
         Erase.journal (HL.Pipeline.parseText Classes.go (GCore.print j)).1 :=
   ⟨GCore.canon o j, formatRun_core o j h hsize, (C04_preserved_core o j h).2.2, (C04_preserved_core o j h).2.1⟩
+
+/-- **C04, the lines that are not posting lines.**  The original and the formatted text have the
+    same number of lines, and line by line they are equal, except that a posting line corresponds
+    to the line of the same posting under the formatter's layout.  (Header lines and empty lines
+    of a core journal have no trailing blanks, so "changed at most by loss of trailing blanks"
+    is "unchanged" here.) -/
+theorem C04_other_lines_core (o : Options) (j : GCore.Journal) (h : GCore.WF j = true) :
+    LinesRel Layout.std (canonLayout o j) (FmtText.splitLines (GCore.print j))
+      (FmtText.splitLines (GCore.canon o j)) := by
+  rw [← printL_std, splitLines_printL _ j h]
+  show LinesRel _ _ _ (FmtText.splitLines (printL (canonLayout o j) j))
+  rw [splitLines_printL _ j h]
+  exact lines_rel _ _ j
 
 /-! ### C05: idempotence -/
 
@@ -309,6 +334,30 @@ theorem C05_aligned_core (o : Options) (j : GCore.Journal) (halign : o.alignAmou
   · simp only [List.length_append, blanks_length, List.length_cons, List.length_nil]
     omega
 
+/-! ### C05: the edits are well-formed -/
+
+/-- **C05 (well-formed edits) for the core grammar, composed with the parser**: the edits
+    returned for the text of a core journal — tree and errors taken from the parse of that text —
+    lie inside the document, on character boundaries, start ≤ end, pairwise disjoint. -/
+theorem C05_edits_wellformed_core (o : Options) (j : GCore.Journal) (h : GCore.WF j = true)
+    (hsize : (GCore.print j).length < 4294967296) :
+    editsWellFormed (GCore.print j)
+      (formatText (HL.Pipeline.parseText Classes.go (GCore.print j)).1
+        (HL.Pipeline.parseText Classes.go (GCore.print j)).2 (GCore.print j) none o) = true := by
+  rw [HL.Props.C03.C03_faithful_core j h]
+  apply HL.Props.C05.edits_wellformed
+  have := treeFits_printL Layout.std j h (by rw [printL_std]; exact hsize)
+  rwa [printL_std, expectedL_std] at this
+
+/-- … and for the second run (the formatted text and the tree of its parse). -/
+theorem C05_edits_wellformed_core_again (o : Options) (j : GCore.Journal) (h : GCore.WF j = true)
+    (hsize : (GCore.canon o j).length < 4294967296) :
+    editsWellFormed (GCore.canon o j)
+      (formatText (HL.Pipeline.parseText Classes.go (GCore.canon o j)).1
+        (HL.Pipeline.parseText Classes.go (GCore.canon o j)).2 (GCore.canon o j) none o) = true := by
+  rw [(C04_preserved_core o j h).1]
+  exact HL.Props.C05.edits_wellformed _ _ _ _ _ (treeFits_printL (canonLayout o j) j h hsize)
+
 /-! ### non-vacuity: a concrete journal, accounts of different lengths -/
 
 /-- the sample of `C03Faithful.lean`: two transactions, accounts `assets:cash`,
@@ -365,3 +414,5 @@ end HL.Props.C04
 #print axioms HL.Props.C04.C04_preserved_core
 #print axioms HL.Props.C04.C05_idempotent_core
 #print axioms HL.Props.C04.C05_aligned_core
+#print axioms HL.Props.C04.C04_other_lines_core
+#print axioms HL.Props.C04.C05_edits_wellformed_core
